@@ -78,6 +78,19 @@ theorem C13_sse_refused (ms : List Marshaler) (d : Marshaler) (r : BindReq) (m :
   · have hss : r.ss = false := by rcases hm with h | h; exact absurd h hcs; exact h
     exact ⟨.sseNotServerStreaming, by simp [hcs, hss], Or.inr rfl, rfl⟩
 
+/-- On the HTTP bridge the SSE refusal comes first: a client-streaming (incl. bidi) or
+    non-server-streaming call that asks for SSE is answered 400 by `Bind`, not by the bridge's
+    later "client streaming through HTTP not supported" (501) check. -/
+theorem C13_http_sse_refusal_first (ms : List Marshaler) (d : Marshaler) (r : BindReq) (m : Marshaler)
+    (hreq : pickRequest ms d r.contentType = .ok m)
+    (hacc : sseMime ∈ r.accept) (hnone : ∀ a ∈ r.accept, lookup ms a = none)
+    (hm : r.cs = true ∨ r.ss = false) (whole : Bool) (ps : List Bytes) (e : End) :
+    (httpOutcome ms d r whole ps e).status = 400 := by
+  obtain ⟨be, hb, _, hs⟩ := C13_sse_refused ms d r m hreq hacc hnone hm
+  unfold httpOutcome
+  rw [hb]
+  exact hs
+
 /-- …and it is accepted, as SSE, for a server-streaming method. -/
 theorem C13_sse_accepted (ms : List Marshaler) (d : Marshaler) (r : BindReq) (m : Marshaler)
     (hreq : pickRequest ms d r.contentType = .ok m)
